@@ -151,6 +151,23 @@ def nf_checks(spec, left, interp):
             "C06:not-idempotent", lambda: "{} -> {}".format(nf, again))
     require(list(itertools.islice(nf.normalize(left=left), 1)) == [],
             "C06:normal-form-has-moves", lambda: str(nf))
+    # the same through the default normalizer (termination is established),
+    # then with the other flag on the same diagram: the answer depends on the
+    # flag of this call, not on what was asked before
+    direct = d.normal_form(left=left) if left else d.normal_form()
+    require(direct == nf and specs.dkey(direct) == specs.dkey(nf),
+            "C06:default-normalizer-differs", lambda: "{}: {} vs {}".format(
+                d, direct, nf))
+    try:
+        other = capped_nf(d, not left, cap)
+    except (StepCap, NotImplementedError) as exc:
+        raise Violation("C06:other-direction-fails", "{} with left={}: {!r}"
+                        .format(d, not left, exc))
+    direct = specs.build(spec).normal_form(left=not left)
+    require(direct == other and specs.dkey(direct) == specs.dkey(other),
+            "C06:normal-form-depends-on-earlier-calls",
+            lambda: "{} with left={}: {} vs {}".format(
+                d, not left, direct, other))
     if interp is not None:
         dims, arrays = interp
         order = [next(k for k, bx in enumerate(d.boxes) if bx is x
